@@ -256,6 +256,15 @@ func (ni *NodeInfo) ConsolidateSharedPodInfoToDifferentGPU(ti *pod_info.PodInfo)
 	return ni.addTask(ti, true)
 }
 
+// RestoreSharedPodInfo re-registers a task whose resources are still charged to the node but whose entry in PodInfos
+// was replaced by ConsolidateSharedPodInfoToDifferentGPU (and removed again when that move was undone).
+func (ni *NodeInfo) RestoreSharedPodInfo(ti *pod_info.PodInfo) {
+	key := pod_info.PodKey(ti.Pod)
+	if _, found := ni.PodInfos[key]; !found {
+		ni.PodInfos[key] = ti.Clone()
+	}
+}
+
 func (ni *NodeInfo) isGpuReleasingFromSharedTasks(gpuGroup string) bool {
 	usedSharedGPUsMemory, found := ni.UsedSharedGPUsMemory[gpuGroup]
 	if !found || usedSharedGPUsMemory == 0 {
